@@ -246,10 +246,20 @@ def oracle(c, impl):
         if nf[k] * nf2[k] < 0 or abs(nf2[k]) > abs(nf[k]) * (1 + 1e-12):
             v.append(('limiter_shrinks', 'face', 'face %d flux %r corrected to %r' % (k, nf[k], nf2[k])))
             break
-        within = (k == n or -psd[k] * (1 - 1e-9) <= nf[k] * dt) and (k == 0 or nf[k] * dt <= psd[k - 1] * (1 - 1e-9))
-        if within and nf2[k] != nf[k] and not exact:
-            v.append(('limiter_minimal', 'face', 'face %d within bounds (flux %r) but changed to %r' % (k, nf[k], nf2[k])))
-            break
+    # when no class would lose more than it holds (total through both faces), nothing may change
+    safe = all((max(-nf[k], 0.0) + max(nf[k + 1], 0.0)) * dt <= psd[k] * (1 - 1e-9) for k in range(n))
+    if safe and not exact:
+        for k in range(n + 1):
+            if nf2[k] != nf[k]:
+                v.append(('limiter_minimal', 'face', 'no class loses more than it holds, but face %d flux %r was changed to %r' % (k, nf[k], nf2[k])))
+                break
+    # after the correction the total leaving a class is at most what it holds: no class goes negative
+    if c['nuc'] >= 0:
+        for k in range(n):
+            new = psd[k] + dt * impl['dxdt2'][k]
+            if new < -(1e-9) * (psd[k] + abs(dt * impl['dxdt2'][k])) - (0 if exact else 0.0):
+                v.append(('class_nonneg', 'class', 'class %d holds %r and becomes %r after a step of %r' % (k, psd[k], new, dt)))
+                break
     # CFL: classes obeying the step limit on both faces stay non-negative
     dx2 = impl['dxdt2']
     for k in range(n):
